@@ -3,6 +3,8 @@
 Event grammar (driver body/arith.rs), all values hex bit patterns:
   neg a      => checked saturating wrapping overflowing plain plain_ref   ('-' = n/a on unsigned)
   abs a      => checked saturating wrapping overflowing plain            (signed only)
+  signum a   => plain                                                    (signed only)
+  npow2 a    => checked_next_power_of_two next_power_of_two is_power_of_two   (unsigned only)
   add|sub|mul|div a b => checked saturating wrapping overflowing plain assign
   mul_int a i => checked saturating wrapping overflowing plain assign int_times_fixed
   div_int a i => checked wrapping overflowing plain assign
@@ -12,6 +14,8 @@ from common import Stats, lay, trunc_div, opclass, panic_text, TRIVIAL_CLASSES
 
 # positions: name -> kind  (c=checked s=saturating w=wrapping o=overflowing p=plain)
 FORMS = {
+    "signum": "p",
+    "npow2": "cpb",
     "neg": "cswopp",
     "abs": "cswop",
     "add": "cswopp",
@@ -27,13 +31,17 @@ FORMS = {
     "mul_int_r": "ppppppp",
     "div_int_r": "pppp",
 }
-FORM_NAME = {"c": "checked", "s": "saturating", "w": "wrapping", "o": "overflowing", "p": "plain"}
+FORM_NAME = {"c": "checked", "s": "saturating", "w": "wrapping", "o": "overflowing", "p": "plain", "b": "is_power_of_two"}
 C01_OPS = ("mul", "div", "mul_r", "div_r")
 
 
 def exact(L, op, A, B):
     """exact raw result R (python int) or None for a zero divisor"""
     base = op[:-2] if op.endswith("_r") else op
+    if base == "signum":
+        return (1 if A > 0 else (-1 if A < 0 else 0)) << L.f
+    if base == "npow2":
+        return 1 if A <= 1 else 1 << (A - 1).bit_length()
     if base == "neg":
         return -A
     if base == "abs":
@@ -125,7 +133,9 @@ class Mon(object):
                                      line, "checked form with zero divisor returned %s" % t)
                 # non-checked forms: documented panic; nothing else is promised
                 continue
-            if kind == "c":
+            if kind == "b":
+                exp = "B:%d" % (1 if (A > 0 and A & (A - 1) == 0) else 0)   # is_power_of_two of the operand
+            elif kind == "c":
                 exp = ("S:" + w) if fits else "N"
             elif kind == "s":
                 exp = "V:%x" % (L.clamp(R) & L.mask)
